@@ -55,7 +55,8 @@ def req : Nat → Key → List Path → List (List Key)
     own, or its required-name set meets that of a sibling. -/
 def useName (fuel : Nat) (node : List Path) (k : Key) : Bool :=
   hasOwn (child node k) ||
-    (childKeys node).any fun k' => k' != k && inter (req fuel k (child node k)) (req fuel k' (child node k'))
+    (let rk := req fuel k (child node k)
+     (childKeys node).any fun k' => k' != k && inter rk (req fuel k' (child node k')))
 
 /-- `_build_signal_name_dict_from_tree` for one signal: the texts of the steps whose node has `use_name`. -/
 def elems (fuel : Nat) : List Path → Path → List String
@@ -100,7 +101,9 @@ def pass1Name (g : List GSig) (s : GSig) : String :=
     shared with another signal of the group. -/
 def tagged (g : List GSig) : List (Bool × List Step) :=
   let n1 := g.map (pass1Name g)
-  g.map fun t => (decide ((n1.filter (· == pass1Name g t)).length > 1), t.bt)
+  g.map fun t =>
+    let nt := pass1Name g t
+    (decide ((n1.filter (· == nt)).length > 1), t.bt)
 
 /-- Second-pass name given the tagged first-pass information `tg` and all second-pass paths `ps`. -/
 def pass2With (tg : List (Bool × List Step)) (ps : List Path) (s : GSig) : String :=
